@@ -4,8 +4,14 @@ pub mod c01;
 pub mod c02;
 pub mod c03;
 pub mod c05;
+pub mod c09;
 pub mod c06;
 pub mod c08;
+pub mod c10;
+pub mod c11;
+pub mod c12;
+pub mod c13;
+pub mod c14;
 pub mod fmt;
 
 pub fn run(run: &Run) -> bool {
@@ -14,8 +20,14 @@ pub fn run(run: &Run) -> bool {
 		"C02" => c02::run(run),
 		"C03" => c03::run(run),
 		"C05" => c05::run(run),
+		"C09" => c09::run(run),
 		"C06" => c06::run(run),
 		"C08" => c08::run(run),
+		"C10" => c10::run(run),
+		"C11" => c11::run(run),
+		"C12" => c12::run(run),
+		"C13" => c13::run(run),
+		"C14" => c14::run(run),
 		"C19" => fmt::run_c19(run),
 		"C20" => fmt::run_c20(run),
 		_ => return false,
@@ -29,8 +41,14 @@ fn replay_case(run: &Run, prop: &str, stage: &str, tape: Option<&[u16]>, v: &ser
 		"C02" => c02::replay(run, stage, tape, v),
 		"C03" => c03::replay(run, stage, tape, v),
 		"C05" => c05::replay(run, stage, tape, v),
+		"C09" => c09::replay(run, stage, tape, v),
 		"C06" => c06::replay(run, stage, tape, v),
 		"C08" => c08::replay(run, stage, tape, v),
+		"C10" => c10::replay(run, stage, tape, v),
+		"C11" => c11::replay(run, stage, tape, v),
+		"C12" => c12::replay(run, stage, tape, v),
+		"C13" => c13::replay(run, stage, tape, v),
+		"C14" => c14::replay(run, stage, tape, v),
 		"C19" | "C20" => fmt::replay(run, prop, stage, tape, v),
 		_ => None,
 	}
